@@ -85,6 +85,9 @@ func newBiscuit(root ed25519.PrivateKey, baseSymbols *datalog.SymbolTable, autho
 	}
 
 	symbols.Extend(authority.symbols)
+	if err := authority.checkSymbols(symbols); err != nil {
+		return nil, err
+	}
 
 	nextPublicKey, nextPrivateKey, err := ed25519.GenerateKey(options.rng)
 	if err != nil {
@@ -189,6 +192,9 @@ func (b *Biscuit) Append(rng io.Reader, block *Block) (*Biscuit, error) {
 
 	symbols := b.symbols.Clone()
 	symbols.Extend(block.symbols)
+	if err := block.checkSymbols(symbols); err != nil {
+		return nil, err
+	}
 
 	nextPublicKey, nextPrivateKey, err := ed25519.GenerateKey(rng)
 	if err != nil {
